@@ -398,10 +398,16 @@ def main():
     for o in owners:
         if "wdesc_error" in o:
             ck.count("wpipe_undescribable")
+    w_budget = {}
     for k, o in enumerate(w_owners):
         a, sp = w_answers[2 * k], w_answers[2 * k + 1]
         ck.count("wpipe_" + a.split(" ")[0])
         ck.count("wpipe_spec_" + sp.split(" ")[0])
+        if not (a.startswith("same") and sp.startswith("ok")):
+            cls = sp.startswith("ok")
+            w_budget[cls] = w_budget.get(cls, 0) + 1
+            if w_budget[cls] > 4:
+                continue
         if not a.startswith("same"):
             if not sp.startswith("ok"):
                 ck.violation(f"the written file does not say what the graph handed to the writer says: {sp[:200]} (model vs code: {a[:120]}; "
